@@ -201,7 +201,12 @@ def D_w1(p, q, A):
     """Wasserstein-1 by the transport LP, independent of POT"""
     from scipy.optimize import linprog
     n = len(p)
-    c = A.ravel()
+    # the LP value is positively homogeneous in the cost: solve with the cost normalised to magnitude 1 and scale back
+    # (HiGHS works with absolute tolerances ~1e-7: with costs of 1e-8 it returned a transport plan 3x too expensive)
+    mag = float(np.abs(A).max())
+    if mag == 0:
+        return 0.0
+    c = A.ravel() / mag
     Aeq = np.zeros((2 * n, n * n))
     for i in range(n):
         Aeq[i, i * n:(i + 1) * n] = 1
@@ -210,7 +215,7 @@ def D_w1(p, q, A):
     r = linprog(c, A_eq=Aeq[:-1], b_eq=beq[:-1], bounds=(0, None), method="highs")
     if r.status != 0:
         raise RuntimeError("linprog failed: " + r.message)
-    return float(r.fun)
+    return float(r.fun) * mag
 
 
 def spec_score(cls, ovo, P, A=None):
